@@ -2,16 +2,16 @@ SPECIFICATION Spec
 CONSTANTS
   NV = 3
   StabV = {}
-  NP = 3
+  NP = 2
   UseQueue = TRUE
   SkipQueue = FALSE
-  Faults = FALSE
-  FaultKinds = {"crash", "reject", "third"}
+  Faults = TRUE
+  FaultKinds = {"crash"}
   MaxC = 40
   RepStatuses = {"SUCCESSFUL", "FAILED"}
-  Atomic = TRUE
+  Atomic = FALSE
   ReportFine = FALSE
-  AutoApprove = TRUE
+  AutoApprove = FALSE
   Opts = {"byp", "wait", "unwait", "nooct"}
   ReportOnce = FALSE
   MaxLevel = 100
